@@ -44,7 +44,7 @@ def k1_verdict_corpus(ctx):
         sh = smgen.Shape(async_=rnd.random() < 0.3, dynamic=rnd.random() < 0.6, concrete=rnd.random() < 0.4,
                          depth=rnd.randint(0, 3), nleaves=rnd.randint(1, 5), nevents=rnd.randint(0, 3),
                          data=rnd.choice(['none', 'some', 'all']), hooks=rnd.randint(0, 3),
-                         payload=rnd.choice(['none', 'mixed', 'all']), super_data=rnd.random() < 0.2)
+                         payload=rnd.choice(['none', 'mixed', 'all']), super_data=rnd.random() < 0.2, cross_kind=rnd.random() < 0.3)
         cases.append(('wf', smgen.gen_wellformed(rnd, sh)))
     base = [d for (_, d) in cases]
     nm = 40 if ctx.tier == 'quick' else 400
@@ -276,7 +276,44 @@ def replay(prop, path):
         print('macro verdict:', 'accepted' if r.get('ok') else 'rejected: %s' % r.get('err'))
         print('model code   :', det.get('model_code'))
         return 1 if (r.get('ok') and det.get('rule')) else 0
+    if kind == 'k1s' and det.get('defn'):
+        import ties_k1s
+        exp = stages.expander_build()
+        feat = bool(det.get('feature_dynamic'))
+        d = to_tuples(det['defn'])
+        r = stages.expand(exp['bins'][feat], [smgen.dsl_defn(d)])[0]
+        out = coqrun.run_shards(os.path.join(stages.CACHE, 'replay_coq'),
+                                ['Eval vm_compute in ("L", 0, 0, k3_table_of %s %s).' % ('true' if feat else 'false', smgen.coq_defn(d))])
+        model = sorted(set(coqrun.parse_L(out).get((0, 0), [])))
+        real = sorted(set(ties_k1s.skel_table(r, smgen.get(d, 'name'), smgen.get(d, 'context') is not None))) if r.get('ok') else ['REJECTED']
+        om = [x for x in model if x not in real]
+        orr = [x for x in real if x not in model]
+        print('only in model       :', om[:10])
+        print('only in macro output:', orr[:10])
+        return 1 if (om or orr) else 0
+    if kind == 'k3' and det.get('defn'):
+        import ties_k3
+        ctx = stages.Ctx('quick', 0)
+        d = to_tuples(det['defn'])
+        tables = ties_k3.model_tables(ctx, [d], [0], False, 'replay')
+        src, exp_lines = ties_k3.probe_module(0, d, tables[0], {'methods', 'substate', 'send'})
+        crate = os.path.join(stages.CACHE, 'replay_k3')
+        ties_k3.write_lib_crate(crate, [('p0', src)], extra_root=ties_k3.ROOT_TYPES)
+        rc, diags, se = ties_k3.cargo_check(crate)
+        got = set()
+        for dg in diags:
+            for (fn, ln) in dg['locs']:
+                if fn == 'src/p0.rs':
+                    got.add(ln)
+                    break
+        bad = sorted(set(exp_lines) ^ got)
+        lines = src.splitlines()
+        for ln in bad:
+            print('line %d: %s | model expects %s, rustc %s' % (ln, lines[ln - 1][:160], 'an error' if ln in exp_lines else 'no error',
+                                                              'reports an error' if ln in got else 'accepts it'))
+        return 1 if bad else 0
     print(json.dumps(rp, indent=1)[:4000])
+    print('(no automatic replay for this kind: re-run ./check %s to re-evaluate it on the current tree)' % prop)
     return 1
 
 
